@@ -59,10 +59,15 @@ func (e *eventV2) SetUnsigned(unsigned interface{}) (PDU, error) {
 	if eventJSON, err = EnforcedCanonicalJSON(eventJSON, e.roomVersion); err != nil {
 		return nil, err
 	}
-	result := *e
+	// Not `result := *e`: that would read the atomic.Value holding the cached event ID with
+	// plain loads while another goroutine may be storing into it.
+	result := &eventV2{eventV1: e.eventV1, PrevEvents: e.PrevEvents, AuthEvents: e.AuthEvents}
+	if id, ok := e.eventIDCache.Load().(string); ok {
+		result.eventIDCache.Store(id)
+	}
 	result.eventJSON = eventJSON
 	result.eventFields.Unsigned = unsignedJSON
-	return &result, nil
+	return result, nil
 }
 
 func (e *eventV2) SenderID() spec.SenderID {
